@@ -13,7 +13,7 @@
    Contract.group_batch = Grouping.pair_in_grouped on one batch), emit every item; the per-operation contract lemmas
    of C03 (Proofs/ContractProofs.v) are reused: replay only looks at the first structural event of each contract. *)
 Require Import WD.Base.Prelude WD.Base.BStr WD.Model.SubEvents WD.Model.Emitter WD.Model.Fs WD.Model.Reader
-               WD.Model.Pipeline WD.Model.Contract WD.Proofs.CoverProofs WD.Proofs.ReplayProofs.
+               WD.Model.Pipeline WD.Model.Contract WD.Proofs.CoverProofs WD.Proofs.ReplayProofs WD.Proofs.ReplayPipeProofs.
 
 (* ---- the association-list replay has the obvious pointwise meaning, and keeps keys distinct *)
 Theorem C01_replay_semantics : forall recursive root t e, NoDup (map fst t) ->
@@ -63,6 +63,20 @@ Theorem C01_from_start_partial : forall C full ops w, c_faults C = [] -> c_mask 
             = alookup beqb x (tree_of (c_recursive C) (c_root C) w').
 Proof. exact replay_from_start. Qed.
 Print Assumptions C01_from_start_partial.
+
+(* ---- the same block on the Pipeline model, through DelayQueue and Grouping (by C03_pipeline_tie): from an idle
+   pipeline (ContractProofs.buffer_idle: nothing queued, nothing being grouped, consumer outside get()) the history
+   AOp o; ARead (whole kernel queue); ATick delay; AEmit x nit  appends to p_out a stream whose replay is the new tree *)
+Theorem C01_block_pipeline : forall P s o w' t0, let C := pc_reader P in
+  c_faults C = [] -> c_mask C = WATCHDOG_ALL -> pc_filter P = None ->
+  ContractProofs.buffer_idle (p_buf s) -> p_stopped s = false ->
+  (forall id, In id (map fst (p_tbl s)) -> (id < p_next s)%N) ->
+  RSync C (p_world s) (p_k s) (p_r s) -> c01_op C (p_world s) o -> apply_op (p_world s) o = Some w' ->
+  TInv (c_recursive C) (c_root C) (replay (c_recursive C) (c_root C) t0 (p_out s)) (p_world s) ->
+  exists nit s' obs, prun P s (ContractProofs.tie_history P s o nit) [] = Done (s', obs) /\
+    TInv (c_recursive C) (c_root C) (replay (c_recursive C) (c_root C) t0 (p_out s')) w'.
+Proof. exact replay_block. Qed.
+Print Assumptions C01_block_pipeline.
 
 (* ================================================================== the full statements *)
 Definition repaired (C : cfg) : Prop :=
